@@ -14,6 +14,8 @@ def linear(e: ast.AST) -> dict[str, int] | None:
         return {"": e.value}
     if isinstance(e, ast.Name):
         return {e.id: 1}
+    if isinstance(e, ast.NamedExpr) and isinstance(e.target, ast.Name):
+        return {e.target.id: 1}  # `(n := f()) > limit` compares the value just bound to n
     if isinstance(e, ast.Attribute):
         d = dotted(e)
         return {d: 1} if d else None  # `self.__limit`, `view.nbytes`: an opaque symbol
